@@ -210,7 +210,7 @@ def split_traces(path):
         yield cur
 
 
-ARG_FIELDS = ("s", "idx", "secs", "pf", "cf", "sf", "tf", "rf", "off", "len", "deps", "kind", "accs", "target", "b", "a", "sec", "units")
+ARG_FIELDS = ("s", "idx", "secs", "pf", "cf", "sf", "tf", "rf", "af", "raw", "off", "len", "deps", "kind", "accs", "target", "b", "a", "sec", "units")
 
 
 def trace_replay_record(lines, upto):
@@ -325,6 +325,23 @@ def validate_traces(wd, files, verdict, tag="t"):
     log("  T: %d events in %d traces (%d flagged by the harness); TLC accepted %d, rejected %d, %.1fs" %
         (events, accepted + rejected, len(suspect), accepted, rejected, time.time() - t0))
     return dict(events=events, accepted=accepted, rejected=rejected, states=states, suspect=len(suspect))
+
+
+def leg_overflow(wd, binary, verdict, stub=""):
+    """The amount-overflow corruption class (shared by C08 and C15): every deposit list of length 2..4 over
+    {MaxCurrency, MaxCurrency-1, 2^127, 2, 1} whose 128-bit sum overflows at the end, in the middle only, or exceeds
+    the renter payout, and replenish targets near 2^128; all must be refused without any effect."""
+    o = run_driver(wd, binary, "overflow", 1, {"VERIF_MAXLEN": 4}, verdict, stub=stub)
+    v = validate_traces(wd, o["files"], verdict, tag="ovf")
+    cleanup(o["files"])
+    o.update(v)
+    c = o["counts"]
+    log("  T: amount overflow: %d deposit lists (%d overflow at the end, %d in the middle only, %d above the payout) + %d replenish requests, %d mismatches" %
+        (sum(c.get("overflow_lists_" + k, 0) for k in ("ovfLast", "ovfMid", "tooBig")), c.get("overflow_lists_ovfLast", 0),
+         c.get("overflow_lists_ovfMid", 0), c.get("overflow_lists_tooBig", 0), c.get("overflow_replenish", 0), o["mismatches"] + v["rejected"]))
+    if not (c.get("overflow_lists_ovfLast") and c.get("overflow_lists_ovfMid") and c.get("overflow_lists_tooBig")):
+        raise vlib.Infra("amount-overflow enumeration is vacuous: %s" % c)
+    return o
 
 
 def cleanup(files):
